@@ -201,7 +201,35 @@ func (fr *Frame) callStatic(st *State, fn *ssa.Function, args, free []Val, pos t
 	ex.note("call to unmodelled external %s at %s: result havoc, no effect on modelled state assumed", fn, fr.pos(pos))
 	ex.trusted["extern: "+fn.String()+" (result arbitrary; locals passed by address are havoc; no other modelled effect)"] = true
 	fr.havocPointees(st, args)
-	return fr.havocResult(st, fn.Signature.Results(), "ext."+fn.Name())
+	rv := fr.havocResult(st, fn.Signature.Results(), "ext."+fn.Name())
+	fr.countLibFailure(st, fn, rv)
+	return rv
+}
+
+// countLibFailure: a library call outside the verified code that returns an error may fail for reasons of its own
+// (a transient fault); the ghost counter LibFailN counts those failures, so that a contract can say what the code
+// does when nothing failed.
+func (fr *Frame) countLibFailure(st *State, fn *ssa.Function, rv Val) {
+	ex := fr.ex
+	if ex.ghost > 0 {
+		return
+	}
+	res := fn.Signature.Results()
+	if res.Len() == 0 || !types.Identical(res.At(res.Len()-1).Type(), types.Universe.Lookup("error").Type()) {
+		return
+	}
+	e := rv.T
+	if res.Len() > 1 {
+		if len(rv.Tup) != res.Len() {
+			return
+		}
+		e = rv.Tup[res.Len()-1].T
+	}
+	if e == nil || e.Sort != SIfc {
+		return
+	}
+	n := ex.get(st, "LibFailN", SInt)
+	ex.set(st, "LibFailN", Add(n, Ite(Eq(e, V("iface_nil", SIfc)), IntLit(0), IntLit(1))))
 }
 
 // havocPointees overwrites the locals whose address is handed to unknown code.
